@@ -14,6 +14,19 @@ def jKey (j : Json) : R Key := do
   | some (Json.str "csc") => pure Key.csc
   | _ => throw "bad key"
 
+/-- a call: a key, where ["r",[shape],false] marks a reshape whose tuple contained -1 -/
+def jCall (j : Json) : R Call := do
+  match ← jKey j with
+  | .transpose ax => pure (.transpose ax)
+  | .reshape sh =>
+    let a ← j.getArr?
+    let lit ← match (a[2]? : Option Json) with
+      | some b => jBool b
+      | none => pure true
+    pure (.reshape sh lit)
+  | .csr => pure .csr
+  | .csc => pure .csc
+
 def keyJ : Key → Json
   | .transpose ax => Json.arr #[Json.str "t", listJ natJ ax]
   | .reshape sh => Json.arr #[Json.str "r", listJ natJ sh]
@@ -33,7 +46,7 @@ def c11 (op : String) (a : Array Json) : R (Option Json) := do
     -- shape of the array, keys whose uncached computation raises, the call sequence
     let shape ← jList jNat (← arg a 1)
     let errs ← jList jKey (← arg a 2)
-    let calls ← jList jKey (← arg a 3)
+    let calls ← jList jCall (← arg a 3)
     let o : Ops Key :=
       { shape := shape, self := .reshape shape,
         compute := fun k => if errs.contains k then .error .value else .ok k,
